@@ -300,7 +300,7 @@ def substitute_compat(ctx, clause):
     for f in ctx.repo.all_funcs():
         names = set()
         if f is opener:
-            names.add(f'self.{mattr}')
+            names |= _aliases(f, f'self.{mattr}')
         for g, w, seeds in with_blocks(ctx, yielders):
             if g is f:
                 names |= seeds
@@ -326,6 +326,130 @@ def substitute_compat(ctx, clause):
                    detail='for arrays whose first axis has length 0 the opener yields a plain ndarray '
                           f'that has no `{a.attr}`: AttributeError instead of NumPy semantics')
     return n
+
+
+def _aliases(func, target_text):
+    """Flow-insensitive alias closure of a resource held in a name / self attribute (plain copies in both directions)."""
+    al = {target_text}
+    changed = True
+    while changed:
+        changed = False
+        for n in own_nodes(func.node):
+            if isinstance(n, ast.Assign) and len(n.targets) == 1:
+                t, v = n.targets[0], n.value
+                tt = dotted(t) if isinstance(t, (ast.Name, ast.Attribute)) else None
+                vt = dotted(v) if isinstance(v, (ast.Name, ast.Attribute)) else None
+                if tt and vt:
+                    if vt in al and tt not in al:
+                        al.add(tt)
+                        changed = True
+                    if tt in al and vt not in al:
+                        al.add(vt)
+                        changed = True
+    return al
+
+
+def _may_raise_implicitly(g, nid):
+    """Can the statement of this CFG node raise on its own (calls, subscripts, arithmetic, suspension points)?"""
+    st = g.astnode[nid]
+    k = g.kind[nid]
+    if k in ('entry', 'exit', 'raise_exit', 'finally', 'withexit', 'handler', 'def'):
+        return False
+    parts = [st]
+    if k == 'if':
+        parts = [st.test]
+    elif k == 'loop':
+        parts = [st.iter] if isinstance(st, ast.For) else [st.test]
+    elif k == 'with':
+        parts = [it.context_expr for it in st.items]
+    for p_ in parts:
+        for x in ast.walk(p_):
+            if isinstance(x, (ast.Call, ast.Subscript, ast.BinOp, ast.Yield, ast.YieldFrom, ast.Await)):
+                # hasattr / isinstance / `is None` tests do not raise
+                if isinstance(x, ast.Call) and dotted(x.func) in ('hasattr', 'isinstance', 'callable'):
+                    continue
+                if isinstance(x, ast.Call) and isinstance(x.func, ast.Attribute) and x.func.attr == 'close' and not x.args:
+                    continue            # releasing is taken not to fail
+                return True
+    return False
+
+
+def leak_paths(func, acq_stmt, target_text, via=None):
+    """Release-on-all-exits for a resource acquired by `acq_stmt` into `target_text` (name or self.attr): returns a list
+    of human-readable leak descriptions (empty = every way out of the function after the acquisition passes a release).
+    Release = <alias>.close() (or <alias>.<via>.close() when `via` is given, `del <alias>`).  Tests `<alias> is not
+    None` / `hasattr(<alias>, ...)` are taken as true while no reset of that alias to None lies between the acquisition
+    and the test.  Implicit exceptions count: a statement that can raise outside any try leaves the function."""
+    g = cfg_of(func)
+    al = _aliases(func, target_text)
+    rel = set()
+    for n in own_nodes(func.node):
+        if isinstance(n, ast.Call) and isinstance(n.func, ast.Attribute) and n.func.attr == 'close':
+            recv = dotted(n.func.value) or ''
+            if (via is None and recv in al) or (via is not None and any(recv == f'{a}.{via}' for a in al)):
+                rel.add(g.node_for(n))
+        if isinstance(n, ast.Delete) and any(dotted(x) in al for x in n.targets):
+            rel.add(g.node_for(n))
+    a0 = g.node_for(acq_stmt)
+    resets = {}
+    for n in own_nodes(func.node):
+        if isinstance(n, ast.Assign) and isinstance(n.value, ast.Constant) and n.value.value is None:
+            for t in n.targets:
+                d = dotted(t)
+                if d in al:
+                    resets.setdefault(d, []).append(g.node_for(n))
+    after_acq = g.reach(a0)
+
+    def fold_at(nid):
+        test = g.astnode[nid].test
+
+        def atom(x):
+            subj = None
+            val = None
+            if isinstance(x, ast.Compare) and len(x.ops) == 1 and isinstance(x.comparators[0], ast.Constant) and \
+                    x.comparators[0].value is None and isinstance(x.ops[0], (ast.Is, ast.IsNot)):
+                subj, val = dotted(x.left), isinstance(x.ops[0], ast.IsNot)
+            elif isinstance(x, ast.Call) and dotted(x.func) == 'hasattr' and x.args:
+                subj, val = dotted(x.args[0]), True
+                if via is None or not (len(x.args) > 1 and isinstance(x.args[1], ast.Constant) and x.args[1].value == via):
+                    return None
+            elif isinstance(x, (ast.Name, ast.Attribute)):
+                subj, val = dotted(x), True
+            if subj is None or subj not in al:
+                return None
+            for r in resets.get(subj, []):
+                if r in after_acq and nid in g.reach(r):
+                    return None
+            return val
+        from .rules import eval_bool
+        return eval_bool(test, atom)
+    seen, stack, leaks = set(), [b for b, lab in g.succ[a0]], []
+    # the acquisition itself may raise: then nothing was acquired (exc edges of a0 are not followed)
+    stack = [b for b, lab in g.succ[a0] if lab != 'exc']
+    while stack:
+        n = stack.pop()
+        if n in seen or n in rel:
+            continue
+        seen.add(n)
+        if n == g.exit:
+            leaks.append('a normal completion does not release it')
+            continue
+        if n == g.rexit:
+            leaks.append('an exception leaves the function without releasing it')
+            continue
+        succ = g.succ[n]
+        if g.kind[n] == 'if':
+            v = fold_at(n)
+            succ = [(b, lab) for b, lab in succ if v is None or lab == v or
+                    (lab == 'exc' and ((n, b) not in g.after_finally or v in g.after_finally[(n, b)]))]
+        has_exc = any(lab == 'exc' for _, lab in succ)
+        if not has_exc and g.kind[n] not in ('raise', 'return') and _may_raise_implicitly(g, n):
+            st = g.astnode[n]
+            leaks.append(f'`{norm(st)[:50] if not isinstance(st, (ast.If, ast.For, ast.While, ast.With)) else type(st).__name__.lower()}` '
+                         f'(line {getattr(st, "lineno", "?")}) can raise outside any try: the exception leaves the function '
+                         f'without releasing it')
+        stack.extend(b for b, lab in succ)
+    return leaks
 
 
 def pair_obligations(ctx, clause):
@@ -356,6 +480,12 @@ def pair_obligations(ctx, clause):
     closes_map = any(isinstance(n, ast.Call) and isinstance(n.func, ast.Attribute) and n.func.attr == 'close'
                      and '_mmap' in norm(n.func) and f'self.{mattr}' in norm(n.func) for n in ast.walk(fin)) or \
         any(isinstance(n, ast.Delete) and any(f'self.{mattr}' == dotted(x) for x in n.targets) for n in ast.walk(fin))
+    if not closes_map:
+        # semantic form: every way out after a map registration passes `<alias>._mmap.close()`
+        macq = [n for n in own_nodes(opener.node) if isinstance(n, ast.Assign) and
+                any(dotted(x) == f'self.{mattr}' for x in n.targets) and isinstance(n.value, ast.Call) and
+                dotted(n.value.func) in ('np.memmap', 'numpy.memmap')]
+        closes_map = bool(macq) and not any(leak_paths(opener, a_, f'self.{mattr}', via='_mmap') for a_ in macq)
     ctx.decide(closes_map, 'R-PAIR', clause, opener, t, 'closes-mmap',
                f'finally closes the mmap of self.{mattr}',
                detail='the map is left to reference counting: a retained exception/traceback keeps the '
@@ -372,6 +502,10 @@ def pair_obligations(ctx, clause):
                     and fdattr and f'self.{fdattr}' in norm(n.func) for n in ast.walk(fin))
     fd_with = any(isinstance(n, ast.With) and any(isinstance(it.context_expr, ast.Call) and
                   dotted(it.context_expr.func) == 'open' for it in n.items) for n in own_nodes(opener.node))
+    if not (fd_closed or fd_with) and fdattr:
+        facq = [n for n in own_nodes(opener.node) if isinstance(n, ast.Assign) and len(n.targets) == 1 and
+                isinstance(n.value, ast.Call) and dotted(n.value.func) in ('open', 'io.open')]
+        fd_closed = bool(facq) and not any(leak_paths(opener, a_, dotted(a_.targets[0]) or '?') for a_ in facq)
     ctx.decide(fd_closed or fd_with, 'R-PAIR', clause, opener, t, 'closes-fd',
                'the data file object is closed on every exit (with-item and/or close in finally)',
                detail='file descriptor leak')
@@ -403,7 +537,15 @@ def pair_obligations(ctx, clause):
                     obl = {cfg.node_for(x) for x in closes}
                     ok = bool(obl) and not cfg.can_reach(s, cfg.exit, avoid=obl, skip_labels=('exc',)) \
                         and not cfg.can_reach(s, cfg.rexit, avoid=obl, skip_labels=('exc',))
+            why = 'file object neither used as a with-item nor closed on all paths'
+            if not ok:
+                for p, field in list(enclosing(f.node, c))[:1]:
+                    if isinstance(p, ast.Assign) and len(p.targets) == 1 and dotted(p.targets[0]):
+                        lk = leak_paths(f, p, dotted(p.targets[0]))
+                        ok = not lk
+                        if lk:
+                            why = lk[0]
             ctx.decide(ok, 'R-PAIR', clause, f, c, f'open::{norm(c)[:40]}',
                        f'{f.qualname}: file object from `{norm(c)[:40]}` is closed on every path',
-                       detail='file object neither used as a with-item nor closed on all paths')
+                       detail=why)
     ctx.floor('R-PAIR open() sites', n, 8)
